@@ -211,7 +211,7 @@ func serve(ln net.Listener, srv Server) error {
 	err := srv.Serve(ln)
 	if err != nil {
 		var opErr *net.OpError
-		if errors.Is(err, http.ErrServerClosed) {
+		if errors.Is(err, http.ErrServerClosed) || errors.Is(err, tcp.ErrServerClosed) {
 			err = nil
 		} else if errors.As(err, &opErr) {
 			if opErr.Err != nil && opErr.Err.Error() == "use of closed network connection" {
